@@ -90,15 +90,15 @@ func checkClosed(addr uintptr) string {
 	return ""
 }
 
-var tinySink []*[2]byte
+var tinySink *bool
 
 // churn flushes the allocator's tiny-object block and runs collections so that pending
 // finalizers become runnable.
 func churn() {
 	for i := 0; i < 64; i++ {
-		tinySink = append(tinySink, new([2]byte))
+		tinySink = new(bool)
 	}
-	tinySink = tinySink[:0]
+	tinySink = nil
 	runtime.GC()
 	runtime.GC()
 	time.Sleep(2 * time.Millisecond)
